@@ -629,7 +629,7 @@ class Instance:
                 elif code == 0xb0:
                     taken = a <= b
                 elif code == 0x40:
-                    taken = a & b != 0
+                    taken = (a & b) != 0
                 else:
                     # signed: flipping the sign bit maps two's complement
                     # order onto unsigned order
